@@ -50,6 +50,15 @@ pub struct GoodCase {
     /// query a padding argument instead of a core argument
     #[serde(default)]
     pub query_pad: bool,
+    /// multiply the number of padding arguments by 40 (thousands of arguments, witness lines of tens of KB)
+    #[serde(default)]
+    pub pad_big: bool,
+}
+
+impl GoodCase {
+    fn n_pad(&self) -> usize {
+        self.pad as usize * if self.pad_big { 40 } else { 1 }
+    }
 }
 
 #[derive(Clone, Debug, Serialize, Deserialize)]
@@ -102,8 +111,8 @@ struct Prepared {
 
 fn prepare(c: &GoodCase) -> Prepared {
     let n = c.g.n;
-    let pad = c.pad as usize;
-    let pad_first = pad % 2 == 1;
+    let pad = c.n_pad();
+    let pad_first = c.pad % 2 == 1;
     if c.apx {
         let labels: Vec<String> = (0..n).map(|i| apx_label(c.style, i)).collect();
         let pad_labels: Vec<String> = (0..pad).map(|k| format!("pad_{}_", k)).collect();
@@ -260,7 +269,7 @@ impl Cli {
     }
 
     fn good(&self, c: &GoodCase, rec: &mut Rec) -> CheckResult {
-        if !Self::feasible(c) || (c.g.n == 0 && c.pad == 0 && c.q != Q::SE) {
+        if !Self::feasible(c) || (c.g.n == 0 && c.n_pad() == 0 && c.q != Q::SE) {
             return Ok(());
         }
         let (solve_bin, iccma_bin) = repobin::ensure().unwrap_or_else(|e| std::panic::panic_any(Inconclusive(e)));
@@ -339,8 +348,11 @@ impl Cli {
         } else {
             check_answer(&ans, &fams, c.q, c.sem, a, cert).map_err(|(what, msg)| Failure::new(format!("{}/wrong-answer/{}", sig, what), format!("{} | {}", msg, ctx())))?;
         }
-        if c.pad >= 10 {
+        if c.n_pad() >= 10 {
             rec.class("labels-with-2-or-3-digits");
+        }
+        if c.n_pad() >= 1000 {
+            rec.class("thousands-of-arguments");
         }
         rec.class(&format!("tool-{}", tool));
         rec.class(if c.apx { "format-apx" } else { "format-iccma23" });
@@ -398,7 +410,7 @@ impl Cli {
                     if c.apx {
                         format!("{}att({},undeclared_zz_).\n", base, p.labels.first().cloned().unwrap_or_else(|| "a".into()))
                     } else {
-                        format!("{}{} 1\n", base, n + c.pad as usize + 1)
+                        format!("{}{} 1\n", base, n + c.n_pad() + 1)
                     }
                 } else if c.apx {
                     BAD_APX[v % BAD_APX.len()].to_string()
@@ -454,7 +466,7 @@ impl Cli {
                 let bads: Vec<String> = if c.apx {
                     vec!["no_such_arg".into(), "1".into(), "A".into(), format!("{}x", p.labels[a])]
                 } else {
-                    vec!["0".into(), (n + c.pad as usize + 1).to_string(), "a".into(), "1.5".into(), "99999999999999999999".into()]
+                    vec!["0".into(), (n + c.n_pad() + 1).to_string(), "a".into(), "1.5".into(), "99999999999999999999".into()]
                 };
                 arg_label = Some(bads[v % bads.len()].clone());
             }
@@ -606,9 +618,9 @@ fn good_case(nmax: usize) -> BoxedStrategy<GoodCase> {
     (
         (gen::graph(nmax), any::<bool>(), 0u8..4, vec(any::<u8>(), nmax), 0u8..6),
         (0u8..3, 0usize..7, 0u8..3, any::<u16>(), any::<u16>(), any::<bool>()),
-        (0u8..4, 0u8..7, any::<bool>(), prop_oneof![9 => Just(false), 1 => Just(true)], prop_oneof![9 => Just(false), 1 => Just(true)], prop_oneof![3 => Just(0u8), 2 => 1u8..12, 2 => 12u8..130], prop_oneof![4 => Just(false), 1 => Just(true)]),
+        (0u8..4, 0u8..7, any::<bool>(), prop_oneof![9 => Just(false), 1 => Just(true)], prop_oneof![9 => Just(false), 1 => Just(true)], prop_oneof![3 => Just(0u8), 2 => 1u8..12, 2 => 12u8..130], prop_oneof![4 => Just(false), 1 => Just(true)], prop_oneof![15 => Just(false), 1 => Just(true)]),
     )
-        .prop_map(|((g, apx, style, order_keys, decor), (tool, s, q, case_mask, arg, cert), (encoding, level, explicit_reader, external, useless_arg, pad, query_pad))| {
+        .prop_map(|((g, apx, style, order_keys, decor), (tool, s, q, case_mask, arg, cert), (encoding, level, explicit_reader, external, useless_arg, pad, query_pad, pad_big))| {
             GoodCase {
                 g,
                 apx,
@@ -629,6 +641,8 @@ fn good_case(nmax: usize) -> BoxedStrategy<GoodCase> {
                 useless_arg,
                 pad,
                 query_pad,
+                // thousands of components through an external solver process would take minutes
+                pad_big: pad_big && !external,
             }
         })
         .boxed()
@@ -640,7 +654,7 @@ impl Prop for Cli {
         "C05"
     }
     fn rule(&self) -> String {
-        "Instance files written by the harness in both formats (<=7 core arguments plus, in 57% of the cases, 1-129 isolated arguments placed before or after them - they belong to every extension, so the reference stays exact while labels get 2-3 digits and witnesses over 100 members; the queried argument may be one of them; decorated with comment lines, CRLF, blank lines, tabs, missing final newline, spaces around identifiers) x the 21 problems in random letter case x an argument x {--reader/-r, --encoding, --with-certificate/-c, --logging-level in {off,error,warn,info,debug,trace}, --external-sat-solver fake_sat, a useless -a with SE} for `crustabri solve`, and -f/-p/-a for `crustabri_iccma23`. Oracle: exit status 0; stdout minus the logger's `![` lines is exactly the answer grammar of the format (nothing may be removed when logging is off), parsed and judged against the brute-force reference (status, witness validity, witness presence exactly when promised). Bad invocations (14 kinds: missing/unreadable file, directory, ill-formed file by the C13 reference, near-miss problem strings, DC/DS without -a, unknown / out-of-range -a, unknown flag, bad --encoding/--reader/--logging-level values, missing -p or -f, wrong reader for the file, non-existent external solver) must exit non-zero without any line of the answer grammar. `problems` / `--problems` must list exactly the 21 problems. Non-trivial: a DC/DS problem with certificate, or any bad invocation; distinct = (file, argv).".into()
+        "Instance files written by the harness in both formats (<=7 core arguments plus, in 57% of the cases, 1-129 isolated arguments placed before or after them - they belong to every extension, so the reference stays exact while labels get 2-3 digits and witnesses over 100 members; one case in 28 has 40 times as many, i.e. up to 5160 arguments and witness lines of tens of KB; the queried argument may be one of them; decorated with comment lines, CRLF, blank lines, tabs, missing final newline, spaces around identifiers) x the 21 problems in random letter case x an argument x {--reader/-r, --encoding, --with-certificate/-c, --logging-level in {off,error,warn,info,debug,trace}, --external-sat-solver fake_sat, a useless -a with SE} for `crustabri solve`, and -f/-p/-a for `crustabri_iccma23`. Oracle: exit status 0; stdout minus the logger's `![` lines is exactly the answer grammar of the format (nothing may be removed when logging is off), parsed and judged against the brute-force reference (status, witness validity, witness presence exactly when promised). Bad invocations (14 kinds: missing/unreadable file, directory, ill-formed file by the C13 reference, near-miss problem strings, DC/DS without -a, unknown / out-of-range -a, unknown flag, bad --encoding/--reader/--logging-level values, missing -p or -f, wrong reader for the file, non-existent external solver) must exit non-zero without any line of the answer grammar. `problems` / `--problems` must list exactly the 21 problems. Non-trivial: a DC/DS problem with certificate, or any bad invocation; distinct = (file, argv).".into()
     }
     fn assumptions(&self) -> Vec<String> {
         vec!["oracle.rs; refparse.rs for the ill-formed files".into(), "the logger prefixes every log line with `![`".into()]
@@ -687,6 +701,7 @@ impl Prop for Cli {
                         useless_arg: false,
                         pad: 0,
                         query_pad: false,
+                        pad_big: false,
                     },
                     255,
                     0,
